@@ -67,7 +67,7 @@ Proof.
   split; [exists old1_pk, old1_msg, old1_sig; exact (conj w1a w1c)|].
   split; [exists crust_pk, crust_msg, crust_sig_unmarked; exact (conj w2a w2b)|].
   split; [exists zero_pk, crust_msg, zero_sig; exact (conj w3a w3b)|].
-  split; [exists crust_pk, old1_msg, crust_sig; exact (conj w4b w4a)|].
+  split; [exists zero_pk, crust_msg, forged_zero_sig_unmarked; exact (conj w4b w4a)|].
   split; [exact host_v1_prefix_ignores_signature|].
   exists zero_pk, crust_msg, forged_zero_sig; exact (conj w5b w5a).
 Qed.
@@ -77,9 +77,9 @@ Lemma sr25519_nonvacuous_all :
   /\ (exists pk msg sig, sr_marked sig = false /\ sr25519_verify_deprecated_ref pk msg sig = true).
 Proof.
   split.
-  - exists crust_pk, crust_msg, crust_sig. split; [exact w0a|].
-    pose proof (sr25519_verify_agrees crust_pk crust_sig crust_msg) as A. rewrite w0a in A.
-    destruct (sr25519_verify_signature crust_pk crust_sig crust_msg); try discriminate A. reflexivity.
+  - exists zero_pk, crust_msg, zero_sig. split; [exact w3a|].
+    pose proof (sr25519_verify_agrees zero_pk zero_sig crust_msg) as A. rewrite w3a in A.
+    destruct (sr25519_verify_signature zero_pk zero_sig crust_msg); try discriminate A. reflexivity.
   - exists old1_pk, old1_msg, old1_sig. exact (conj w1d w1a).
 Qed.
 
